@@ -95,7 +95,12 @@ Proof.
   destruct (try_cache false w loc s nf ps_empty) as [ps1 [|]]; [split; [reflexivity|exact H]|].
   rewrite (try_cache_nouc b w upsdb s nf ps1 H).
   destruct (try_cache false w upsdb s nf ps1) as [ps2 [|]].
-  - rewrite H1, !load_user_tags_nil. split; [reflexivity|exact H].
+  - rewrite H1, !load_user_tags_nil. split; [reflexivity|].
+    destruct (str_eqb loc upsdb); [exact H|].
+    (* the stack loaded from the shared files is persisted into the instance's own directory *)
+    destruct (save_frame tick s loc nf w ps2) as [A B].
+    destruct (save tick w s loc nf ps2) as [[w' ps3] b']. cbn [fst] in *.
+    apply (nouc_same w); assumption.
   - rewrite H1, (rebuild_lookup_nil (w_db w) utd s).
     destruct (save_frame tick s loc (uniq (akeys (rebuild_lookup (w_db w) [] None s) ++ nf)) w
                 (mkPS (rebuild_lookup (w_db w) [] None s) (ps_modtimes ps2))) as [A B].
